@@ -8,6 +8,7 @@ import (
 	"strings"
 	"sync"
 	"testing"
+	"time"
 
 	"github.com/alecthomas/participle/v2"
 	"github.com/alecthomas/participle/v2/ebnf"
@@ -99,6 +100,27 @@ func parserCalls[G any](p *participle.Parser[G]) func(kind, in string) any {
 			r.Toks, r.Err = cloneToks(toks), errStr(err)
 		case "ebnf-string":
 			r.Text = p.String()
+		case "lex-past-eof":
+			// a lexer of the parser's definition, drained and then asked three more times
+			l, err := p.Lexer().Lex("f", strings.NewReader(in))
+			if err != nil {
+				r.Err = errStr(err)
+				break
+			}
+			for extra := 0; extra < 3; {
+				t, err := l.Next()
+				if err != nil {
+					r.Err = errStr(err)
+					break
+				}
+				r.Toks = append(r.Toks, t)
+				if t.EOF() {
+					extra++
+				}
+				if len(r.Toks) > len(in)+8 {
+					break
+				}
+			}
 		case "string-trailing":
 			// per-call options must stay per call
 			ast, err := p.ParseString("f", in, participle.AllowTrailing(true))
@@ -343,7 +365,14 @@ func checkC09(c *c09Case, r *vstat.Run) outcome {
 		}(gi, ops)
 	}
 	close(start)
-	wg.Wait()
+	finished := make(chan struct{})
+	go func() { wg.Wait(); close(finished) }()
+	select {
+	case <-finished:
+	case <-time.After(6 * hangLimit):
+		// the calls are short (milliseconds): goroutines that have not come back after minutes are blocked
+		return violationf("deadlock", "the concurrent calls of this workload did not all return within %v: some call blocks for ever", 6*hangLimit)
+	}
 	if r != nil {
 		r.JournalDone()
 		r.Eval()
@@ -412,7 +441,7 @@ func TestC09(t *testing.T) {
 			switch k := rapid.IntRange(0, 9).Draw(t, "okind"); {
 			case k <= 2:
 				o.Kind = "grammar"
-				o.G = gram.GenGrammar(t, gram.GenOpts{MaxProds: 3, MaxDepth: 3, TrapPercent: 10, PosStyles: false})
+				o.G = gram.GenGrammar(t, gram.GenOpts{MaxProds: 3, MaxDepth: 3, TrapPercent: 10, PosStyles: false, Parseables: true})
 				for j := 0; j < 4; j++ {
 					o.Inputs = append(o.Inputs, gram.Render(t, o.G, gram.GenInput(t, o.G), "r"))
 				}
@@ -483,7 +512,7 @@ func TestC09(t *testing.T) {
 			case "fixture":
 				return []string{"string", "bytes", "reader", "lex", "ebnf-string", "string-trailing", "string-trace", "sub-parse", "ebnf-string"}
 			}
-			return []string{"string", "string", "bytes", "reader", "lex", "ebnf-string", "string-trailing", "string-trace"}
+			return []string{"string", "string", "bytes", "reader", "lex", "ebnf-string", "string-trailing", "string-trace", "lex-past-eof"}
 		}
 		genOp := func() c09Op {
 			oi := rapid.IntRange(0, len(c.Objects)-1).Draw(t, "obj")
